@@ -23,6 +23,7 @@ type Fedi struct {
 	// QueryURLs: generated pages and items live under one path and differ only in the query
 	// (query-routed servers), so that anything keyed by the path alone confuses them
 	QueryURLs bool
+	cursorN   int
 }
 
 type Doc = map[string]any
@@ -220,12 +221,13 @@ func (f *Fedi) DrawLayout(host string, mkItem func(remote bool) CItem) *CLayout 
 			p := &CPage{Items: itemsFor(), Remote: t.Chance(1, 2), NoID: t.Chance(1, 6), RefStyle: t.Weighted(4, 1, 1)}
 			p.URL = fmt.Sprintf("https://%s/c/%d", host, f.next())
 			if f.QueryURLs {
-				// cursors that differ only in letter case are different pages
-				n := f.next()
-				cur := []string{"AkQ7b", "Akq7B", "aKQ7b", "AKQ7B", "akq7b", "AkQ7B"}[i%6]
-				p.URL = fmt.Sprintf("https://%s/c/q?max_id=%s%d", host, cur, n/100)
-				if n%3 == 0 {
-					p.URL = fmt.Sprintf("https://%s/c/q?page=%d", host, n)
+				// cursors that differ only in letter case are different pages: consecutive pages get
+				// the same cursor digits with different capitalisation (unique per pair)
+				if i%2 == 0 {
+					f.cursorN = f.next()
+					p.URL = fmt.Sprintf("https://%s/c/q?max_id=AkQ%db", host, f.cursorN)
+				} else {
+					p.URL = fmt.Sprintf("https://%s/c/q?max_id=aKq%dB", host, f.cursorN)
 				}
 			}
 			l.Pages = append(l.Pages, p)
